@@ -1,7 +1,10 @@
 package session
 
 import (
+	"crypto/rand"
 	"fmt"
+	"io"
+	"sync"
 	"testing"
 	"time"
 
@@ -11,12 +14,48 @@ import (
 
 // ---- C14 (store model): codes of live sessions are distinct, dead codes are not found ----
 
+// collidingReader stands in for crypto/rand.Reader: 8-byte reads (join codes) are answered
+// from a pool of four values half of the time, so that a freshly drawn code collides with
+// the code of a live session every few creates - an event that is out of reach with 32^8
+// codes. Everything else (session ids) stays random.
+type collidingReader struct {
+	mu   sync.Mutex
+	real io.Reader
+	x    verifkit.XorShift
+	hits int
+}
+
+func (c *collidingReader) Read(b []byte) (int, error) {
+	c.mu.Lock()
+	defer c.mu.Unlock()
+	if len(b) == 8 && c.x.Next()%2 == 0 {
+		v := byte(c.x.Next() % 4)
+		for i := range b {
+			b[i] = v*8 + byte(i)
+		}
+		c.hits++
+		return len(b), nil
+	}
+	return io.ReadFull(c.real, b)
+}
+
 func TestVerifC14Store(t *testing.T) {
 	rec := verifkit.NewRecorder("C14", "store")
 	defer rec.Flush()
 	rapid.Check(t, func(rt *rapid.T) {
 		ttl := rapid.SampledFrom([]time.Duration{0, 0, 15 * time.Millisecond}).Draw(rt, "ttl")
 		st := NewStore(ttl)
+		limit := rapid.SampledFrom([]int{0, 0, 5, 1000}).Draw(rt, "create_limit") // 0: Create, else CreateIfBelow(limit)
+		if rapid.IntRange(0, 2).Draw(rt, "colliding_codes") == 1 {
+			cr := &collidingReader{real: rand.Reader, x: verifkit.XorShift(rapid.Uint64().Draw(rt, "rand_seed") | 1)}
+			rand.Reader = cr
+			defer func() {
+				rand.Reader = cr.real
+				if cr.hits > 0 {
+					rec.Class("join-code-draws-from-a-4-value-pool")
+				}
+			}()
+		}
 		type live struct {
 			s       Session
 			created time.Time
@@ -28,7 +67,28 @@ func TestVerifC14Store(t *testing.T) {
 		for i := 0; i < n; i++ {
 			switch rapid.SampledFrom([]string{"create", "create", "create", "delete", "lookup", "lookup-dead", "sleep"}).Draw(rt, fmt.Sprintf("op%d", i)) {
 			case "create":
-				s := st.Create()
+				var s Session
+				if limit == 0 {
+					s = st.Create()
+				} else {
+					var ok bool
+					s, ok = st.CreateIfBelow(limit)
+					if !ok {
+						if len(model) < limit && ttl == 0 {
+							rec.Fail(rt, "create-refused-below-limit", fmt.Sprintf("CreateIfBelow(%d) refused with %d live sessions", limit, len(model)))
+							return
+						}
+						continue
+					}
+					if len(model) >= limit && ttl == 0 {
+						rec.Fail(rt, "max-sessions-exceeded", fmt.Sprintf("CreateIfBelow(%d) created a session while %d are live", limit, len(model)))
+						return
+					}
+				}
+				if got, ok := st.GetByJoinCode(s.JoinCode); !ok || got.ID != s.ID {
+					rec.Fail(rt, "fresh-code-resolves-elsewhere", fmt.Sprintf("the code %s just handed out for session %s resolves to %q (found=%v)", s.JoinCode, s.ID, got.ID, ok))
+					return
+				}
 				for _, l := range model {
 					if l.s.JoinCode == s.JoinCode && (ttl == 0 || time.Since(l.created) < ttl) {
 						rec.Fail(rt, "duplicate-live-join-code", fmt.Sprintf("join code %s handed out twice while both sessions are live", s.JoinCode))
@@ -53,14 +113,18 @@ func TestVerifC14Store(t *testing.T) {
 				for _, l := range model {
 					age := time.Since(l.created)
 					got, ok := st.GetByJoinCode(l.s.JoinCode)
+					ageAfter := time.Since(l.created) // (the call may have been delayed on a busy machine)
 					switch {
-					case ttl == 0 || age < ttl-5*time.Millisecond:
+					case ttl == 0 || ageAfter < ttl-5*time.Millisecond:
 						if !ok || got.ID != l.s.ID {
 							rec.Fail(rt, "live-code-not-found", fmt.Sprintf("session %s (age %s, ttl %s) not found by its join code", l.s.ID, age, ttl))
 							return
 						}
 					case age > ttl+5*time.Millisecond:
 						sawExpire = true
+						if _, reused := model[got.ID]; ok && got.ID != l.s.ID && reused {
+							break // the code has since been handed to another, live session
+						}
 						if ok {
 							rec.Fail(rt, "expired-code-still-admits", fmt.Sprintf("join code %s found %s after creation, lifetime %s", l.s.JoinCode, age, ttl))
 							return
@@ -70,7 +134,10 @@ func TestVerifC14Store(t *testing.T) {
 				}
 			case "lookup-dead":
 				for code := range dead {
-					if _, ok := st.GetByJoinCode(code); ok {
+					if got, ok := st.GetByJoinCode(code); ok {
+						if _, reused := model[got.ID]; reused {
+							break // handed out again to a live session
+						}
 						rec.Fail(rt, "deleted-code-still-admits", "join code "+code+" found after its session was deleted")
 						return
 					}
